@@ -153,3 +153,65 @@ Theorem C06_validated_reported_cost_ge_reference : validated_reported_cost_ge_re
 Proof. exact validated_reported_cost_ge_reference. Qed.
 Print Assumptions C06_validated_reported_cost_ge_reference.
 
+
+(* completeness / minimality of the search mirror (the Dijkstra invariant with node merging) *)
+From GV Require Import C06.CompleteSpec C06.CompleteProofs C06.CompleteRank C06.CompleteValidated C06.CompleteValidatedRank C06.CompleteExamples.
+
+Theorem C06_dijkstra_complete : dijkstra_complete_stmt.
+Proof. exact dijkstra_complete. Qed.
+Print Assumptions C06_dijkstra_complete.
+
+Theorem C06_reported_cost_minimal : reported_cost_minimal_stmt.
+Proof. exact reported_cost_minimal. Qed.
+Print Assumptions C06_reported_cost_minimal.
+
+Theorem C06_reported_cost_eq_reference : reported_cost_eq_reference_stmt.
+Proof. exact reported_cost_eq_reference. Qed.
+Print Assumptions C06_reported_cost_eq_reference.
+
+Theorem C06_candidates_complete : candidates_complete_stmt.
+Proof. exact candidates_complete. Qed.
+Print Assumptions C06_candidates_complete.
+
+Theorem C06_search_complete_bounded : search_complete_bounded_stmt.
+Proof. exact search_complete_bounded. Qed.
+Print Assumptions C06_search_complete_bounded.
+
+Theorem C06_search_reports_exactly : search_reports_exactly_stmt.
+Proof. exact search_reports_exactly. Qed.
+Print Assumptions C06_search_reports_exactly.
+
+(* the same at the first error of an input (the shape of search_complete_stmt), and on validated tables *)
+Theorem C06_error_not_success : error_not_success_stmt.
+Proof. exact error_not_success. Qed.
+Print Assumptions C06_error_not_success.
+
+Theorem C06_search_complete_at_error : search_complete_at_error_stmt.
+Proof. exact search_complete_at_error. Qed.
+Print Assumptions C06_search_complete_at_error.
+
+Theorem C06_validated_reported_cost_eq_reference : validated_reported_cost_eq_reference_stmt.
+Proof. exact validated_reported_cost_eq_reference. Qed.
+Print Assumptions C06_validated_reported_cost_eq_reference.
+
+Theorem C06_validated_candidates_complete : validated_candidates_complete_stmt.
+Proof. exact validated_candidates_complete. Qed.
+Print Assumptions C06_validated_candidates_complete.
+
+Theorem C06_validated_reported_are_min_cost : validated_reported_are_min_cost_stmt.
+Proof. exact validated_reported_are_min_cost. Qed.
+Print Assumptions C06_validated_reported_are_min_cost.
+
+(* the set, on validated tables (reference at every sufficiently large reduction fuel) *)
+Theorem C06_validated_search_complete : validated_search_complete_stmt.
+Proof. exact validated_search_complete. Qed.
+Print Assumptions C06_validated_search_complete.
+
+Theorem C06_validated_search_complete_at_error : validated_search_complete_at_error_stmt.
+Proof. exact validated_search_complete_at_error. Qed.
+Print Assumptions C06_validated_search_complete_at_error.
+
+(* search_complete_stmt true as stated in C06/Refuted.v (no bound on the minimum cost) is false *)
+Theorem C06_search_complete_needs_cost_bound : search_complete_needs_cost_bound_stmt.
+Proof. exact search_complete_needs_cost_bound. Qed.
+Print Assumptions C06_search_complete_needs_cost_bound.
